@@ -38,7 +38,7 @@ class C06(CheckBase):
     assumptions = ['the middlebox acknowledges every notification to the provider (transport-level failures are C08)',
                    'equality with the provider is only demanded at recovery points after faults stopped']
     expected_probes = ['drop', 'dup', 'delay', 'replay', 'getmdib_race', 'seq_change', 'recover_checked',
-                       'race_buffered']
+                       'race_buffered', 'stall_in_replay']
     max_steps = 8_000_000
 
     def budget(self, tier):
@@ -72,8 +72,9 @@ class C06(CheckBase):
         if rng.random() < 0.35 and len(ops) > 4:
             seq_change = {'after_op': rng.randrange(1, len(ops) - 1), 'reset_version': rng.random() < 0.5,
                           'instance_only': rng.random() < 0.2}
-        return {'sched': draw_sched_config(rng), 'world': cfg, 'ops': ops, 'fates': fates,
-                'race': {'ops_during': rng.randint(1, 4), 'delay': rng.choice([0.0, 0.05, 0.2])} if race else None,
+        return {'sched': draw_sched_config(rng, stall_ok=True), 'world': cfg, 'ops': ops, 'fates': fates,
+                'race': {'ops_during': rng.randint(1, 4), 'delay': rng.choice([0.0, 0.05, 0.2]),
+                         'stall_replay': rng.choice([0.0, 0.0, 0.015, 0.04])} if race else None,
                 'seq_change': seq_change, 'race_reload_at_end': rng.random() < 0.3}
 
     # ------------------------------------------------------------------
@@ -94,6 +95,32 @@ class C06(CheckBase):
                     ctx.probe('race_buffered')
                     list.append(self_, item)
             cm._buffered_notifications = _CountingList()
+
+            class _StallingLock:
+                """slow-node fault at a chosen site: the thread that loads the MDIB is descheduled for a while right after it
+                took the buffered-notifications lock (i.e. at the start of the replay of buffered reports)"""
+
+                def __init__(self_, inner):  # noqa: N805
+                    self_.inner = inner
+
+                def __enter__(self_):  # noqa: N805
+                    self_.inner.acquire()
+                    d = (plan.get('race') or {}).get('stall_replay')
+                    if d and threading.current_thread().name in ('init_mdib', 'reload'):
+                        ctx.probe('stall_in_replay')
+                        ctx.net.fault_counts['thread_stall'] = ctx.net.fault_counts.get('thread_stall', 0) + 1
+                        s.sleep(d)
+                    return self_
+
+                def __exit__(self_, *a):  # noqa: N805
+                    self_.inner.release()
+
+                def acquire(self_, *a, **k):  # noqa: N805
+                    return self_.inner.acquire(*a, **k)
+
+                def release(self_):  # noqa: N805
+                    return self_.inner.release()
+            cm._buffered_notifications_lock = _StallingLock(cm._buffered_notifications_lock)
         events = []
         op.strongbind(cm, sequence_or_instance_id_changed_event=lambda v: events.append(v))
         # middlebox in front of the consumer's notification listener
@@ -135,6 +162,12 @@ class C06(CheckBase):
             for o in during:
                 provider_op(o)
                 s.sleep(0.01)
+            if race.get('stall_replay') and ops and t.is_alive():
+                # keep committing while the consumer finishes loading
+                for o in ops[:2]:
+                    provider_op(o)
+                    s.sleep(0.01)
+                ops = ops[2:]
             t.join()
             for conn in w.net.conns:
                 conn.s2c.extra_latency = 0.0
@@ -180,12 +213,12 @@ class C06(CheckBase):
         if plan.get('race_reload_at_end') and ops:
             # reload while the provider keeps committing
             extra = ops[-1]
-            t = threading.Thread(target=lambda: self._reload(cm), name='reload')
+            t = threading.Thread(target=lambda: self._reload(cm, ctx), name='reload')
             t.start()
             provider_op(dict(extra, id=extra['id'] + 1000))
             t.join()
         else:
-            self._reload(cm)
+            self._reload(cm, ctx)
         if not w.settle(5.0):
             ctx.violation('C06.recover', 'no-quiescence', 'consumer not idle 5 virtual s after reload_all')
         ctx.probe('recover_checked')
@@ -196,9 +229,14 @@ class C06(CheckBase):
         ctx.nontrivial = any(w.net.fault_counts.get(k) for k in ('drop', 'dup', 'delay', 'replay')) or bool(race)
 
     @staticmethod
-    def _reload(cm):
+    def _reload(cm, ctx):
         with worldb.node(worldb.CONSUMER_IPS[0]):
-            cm.reload_all()
+            try:
+                cm.reload_all()
+            except Exception as ex:  # noqa: BLE001
+                # faults have stopped at this point: the reload has no excuse to fail
+                import traceback
+                ctx.violation('C06.recover', f'reload_all-raises:{type(ex).__name__}', traceback.format_exc()[-2500:])
 
     def _expect_mirror(self, ctx, w, cm, clause, where):
         with ctx.s.no_preempt():
